@@ -37,7 +37,7 @@ ASSUMPTIONS = [
     'a wet-bulb observation is physically valid when wet <= dry and the resulting vapour pressure is >= 0',
     'the CO2 form takes relative humidity only (documented); wet-bulb input is compared through the equivalent humidity',
 ]
-REQUIRED_COUNTERS = ['one_element_changed_sequences', 
+REQUIRED_COUNTERS = ['one_element_changed_sequences', 'tables_fetched_by_caller_between_reductions', 
     'joins', 'inverse_pair', 'bearing_range', 'bearing_direction', 'rotation_scale', 'radiations_closed_form',
     'inverse_pair_reverse', 'polar2rect', 'polar2rect_angle_objects', 'rect2polar', 'near_axis_joins', 'axis_joins',
     'va_pythagoras', 'va_heights', 'va_hz_closed_form', 'va_q1', 'va_q2', 'va_q3', 'va_q4',
@@ -846,6 +846,22 @@ def run_case(ns, ctx, c, mon):
         raise core.Inconclusive('unknown case kind %r' % (k,))
 
 
+def caller_uses_tables(ns, ctx, rnd):
+    """Between judged reductions a caller fetches the library's tables and parameters (for a report, for its own formulae) and
+    edits what it got - also through a shallow copy, whose rows are still the rows it was handed.  Unjudged; the reductions
+    judged afterwards must be as right as before."""
+    S = ns.survey
+    got = [core.unjudged(ctx, S.refractivity_constants), core.unjudged(ctx, S.mets_partial_differentials),
+           core.unjudged(ctx, S.first_vel_params, 0.85, 1.5e7)]
+    edits = 0
+    for g in got:
+        if g is None:
+            continue
+        edits += core.caller_edits(list(g) if isinstance(g, (list, tuple)) and rnd.random() < 0.5 else g)
+    ctx.count('tables_fetched_by_caller_between_reductions')
+    ctx.count('in_place_edits_of_fetched_tables', edits)
+
+
 def run_shard(spec, ctx):
     ns = core.load_repo()
     kind = spec['kind']
@@ -877,6 +893,8 @@ def run_shard(spec, ctx):
                 c = gen_atmo(rnd)
                 if i < 2:
                     ctx.sample(c)
+                if i % 25 == 3:
+                    caller_uses_tables(ns, ctx, rnd)
                 run_case(ns, ctx, c, mon)
                 if rnd.random() < 0.3:
                     # the same reduction with ONE element changed (another carrier wavelength in the same atmosphere, the
@@ -902,6 +920,8 @@ def run_shard(spec, ctx):
                 c = gen_disp(rnd)
                 if i < 2:
                     ctx.sample(c)
+                if i % 25 == 3:
+                    caller_uses_tables(ns, ctx, rnd)
                 run_case(ns, ctx, c, mon)
         elif kind == 'ambient':
             ambient(ns, ctx)
